@@ -13,7 +13,9 @@ import (
 	"os"
 	"os/exec"
 	"path/filepath"
+	"strconv"
 	"strings"
+	"syscall"
 	"time"
 )
 
@@ -153,7 +155,7 @@ func c03OutputsE(vals [][]byte) ([]int, string, bool) {
 			return nil, "", false
 		}
 		decoded = append(decoded, g)
-		mo := RunModel(p, []MInput{{Name: "stream.json", Values: decoded}}, nil, ModelOpts{})
+		mo := RunModel(p, []MInput{{Name: "stream.json", Values: decoded}}, nil, ModelOpts{Budget: 100000000})
 		out = mo.Stdout
 		lens = append(lens, len(out))
 	}
@@ -379,6 +381,94 @@ func c03Fixed(c *Case) {
 	}
 }
 
+// streams with one very large value (beyond any internal buffer size) followed by small ones
+func c03Big(c *Case) {
+	rng := c.Rng
+	bigs := []func(n int) string{
+		func(n int) string { return "[\"" + strings.Repeat("x", n) + "\"]" },
+		func(n int) string { return "\"" + strings.Repeat("é", n/2) + "\"" },
+		func(n int) string {
+			var sb strings.Builder
+			sb.WriteByte('[')
+			for i := 0; sb.Len() < n; i++ {
+				if i > 0 {
+					sb.WriteByte(',')
+				}
+				sb.WriteString(strconv.Itoa(i))
+			}
+			sb.WriteByte(']')
+			return sb.String()
+		},
+		func(n int) string {
+			var sb strings.Builder
+			sb.WriteByte('{')
+			for i := 0; sb.Len() < n; i++ {
+				if i > 0 {
+					sb.WriteByte(',')
+				}
+				fmt.Fprintf(&sb, "\"k%06d\":[%d]", i, i)
+			}
+			sb.WriteByte('}')
+			return sb.String()
+		},
+	}
+	for _, size := range []int{4090, 4097, 65530, 65537, 70000, 200000, 1 << 20} {
+		for bi, mk := range bigs {
+			if size > 250000 && bi != 0 {
+				continue
+			}
+			for _, where := range []string{"first", "middle", "last"} {
+				small := []string{"[1]", "{\"a\":2}", "3", "\"t\"", "[4,5]"}
+				big := mk(size)
+				var parts []string
+				switch where {
+				case "first":
+					parts = append([]string{big}, small...)
+				case "middle":
+					parts = append(append(append([]string{}, small[:2]...), big), small[2:]...)
+				default:
+					parts = append(append([]string{}, small...), big)
+				}
+				data := []byte(strings.Join(parts, []string{"\n", " ", ""}[rng.IntN(3)]) + "\n")
+				sp := splitStream(data)
+				// plans: everything at once; one value per read; 64 KiB blocks; 4 KiB blocks; big blocks of random size
+				var plans [][]readStep
+				plans = append(plans, []readStep{{n: len(data)}, {0, io.EOF}})
+				var per []readStep
+				prev := 0
+				for _, v := range sp.values {
+					per = append(per, readStep{n: v.end - prev})
+					prev = v.end
+				}
+				per = append(per, readStep{n: len(data) - prev}, readStep{0, io.EOF})
+				plans = append(plans, per)
+				for _, blk := range []int{65536, 4096, 512 + rng.IntN(30000)} {
+					var pl []readStep
+					for i := 0; i < len(data); i += blk {
+						pl = append(pl, readStep{n: min(blk, len(data)-i)})
+					}
+					plans = append(plans, append(pl, readStep{0, io.EOF}))
+				}
+				c.NonTrivial(fmt.Sprintf("big:%d:%d:%s", size, bi, where))
+				c.Count("big_value_streams")
+				var ref string
+				for k, pl := range plans {
+					_, out, ok := c03RunOne(c, data, pl, false, fmt.Sprintf("stream with a %d-byte value (%s), plan %d", len(big), where, k))
+					if !ok {
+						return
+					}
+					if k == 0 {
+						ref = out
+					} else if out != ref && !sameLinesOrderFree(ref, out) {
+						c.Violation(fmt.Sprintf("stream with a %d-byte value (%s): read plan %d gives different output than a single read: %s", len(big), where, k, diffAt(ref, out)), nil, map[string]any{"value_bytes": len(big), "position": where, "plan": k})
+						return
+					}
+				}
+			}
+		}
+	}
+}
+
 // ---- binary level
 
 func c03Cli(c *Case) {
@@ -393,8 +483,27 @@ func c03Cli(c *Case) {
 	lens, full := c03Outputs(vals)
 	c.Count("cli_streams")
 	// feed chunk by chunk through a pipe; after each chunk wait until the process is blocked in read(0)
-	cmd := exec.Command(c.env.Jqawk, "--", c03Prog)
-	stdin, _ := cmd.StdinPipe()
+	// two ways in: the standard input, or a named pipe given as a file argument (every third case)
+	fifo := ""
+	if c.Idx%3 == 0 {
+		fifo = filepath.Join(c.env.Scratch, fmt.Sprintf("in-%d.fifo", c.Idx))
+		os.Remove(fifo)
+		if err := syscall.Mkfifo(fifo, 0o600); err != nil {
+			fifo = ""
+		} else {
+			defer os.Remove(fifo)
+		}
+	}
+	var cmd *exec.Cmd
+	var stdin io.WriteCloser
+	if fifo != "" {
+		cmd = exec.Command(c.env.Jqawk, "--", c03Prog, fifo)
+		cmd.Stdin = bytes.NewReader(nil)
+		c.Count("cli_streams_through_a_named_pipe")
+	} else {
+		cmd = exec.Command(c.env.Jqawk, "--", c03Prog)
+		stdin, _ = cmd.StdinPipe()
+	}
 	var out lockedBuf
 	cmd.Stdout = &out
 	var errb bytes.Buffer
@@ -405,13 +514,48 @@ func c03Cli(c *Case) {
 	}
 	heartbeat()
 	pid := cmd.Process.Pid
+	if fifo != "" {
+		// opening the write side returns once the program has opened the pipe for reading
+		opened := make(chan *os.File, 1)
+		go func() {
+			f, err := os.OpenFile(fifo, os.O_WRONLY, 0)
+			if err != nil {
+				f = nil
+			}
+			opened <- f
+		}()
+		select {
+		case f := <-opened:
+			if f == nil {
+				cmd.Process.Kill()
+				cmd.Wait()
+				c.Inconclusive("cli-fifo-open-failed")
+				return
+			}
+			stdin = f
+		case <-time.After(20 * time.Second):
+			cmd.Process.Kill()
+			cmd.Wait()
+			if f, err := os.OpenFile(fifo, os.O_RDONLY|syscall.O_NONBLOCK, 0); err == nil { // release our blocked opener
+				f.Close()
+			}
+			c.Inconclusive("cli-fifo-never-opened")
+			return
+		}
+	}
 	fed := 0
 	bad := ""
 	for fed < len(data) {
 		n := 1 + rng.IntN(min(16, len(data)-fed))
 		stdin.Write(data[fed : fed+n])
 		fed += n
-		if !waitBlockedInRead(pid, 5*time.Second) {
+		quiet := false
+		if fifo != "" {
+			quiet = waitIdle(pid, 5*time.Second)
+		} else {
+			quiet = waitBlockedInRead(pid, 5*time.Second)
+		}
+		if !quiet {
 			c.Inconclusive("cli-not-quiescent")
 			bad = "skip"
 			break
@@ -430,7 +574,7 @@ func c03Cli(c *Case) {
 		}
 		c.Count("cli_quiescent_points_checked")
 		if got < need {
-			bad = fmt.Sprintf("after %d bytes the process is blocked in read(0) but only %d of the %d output bytes due for the complete values so far are written", fed, got, need)
+			bad = fmt.Sprintf("after %d bytes the process is waiting for input (%s) but only %d of the %d output bytes due for the complete values so far are written", fed, map[bool]string{true: "all threads asleep, no CPU time used between two observations; input is a named pipe given as a file", false: "blocked in read(0)"}[fifo != ""], got, need)
 			break
 		}
 	}
@@ -476,6 +620,46 @@ func (l *lockedBuf) unlock()                     { <-l.mu }
 func (l *lockedBuf) Write(p []byte) (int, error) { l.lock(); defer l.unlock(); return l.b.Write(p) }
 func (l *lockedBuf) Len() int                    { l.lock(); defer l.unlock(); return l.b.Len() }
 func (l *lockedBuf) String() string              { l.lock(); defer l.unlock(); return l.b.String() }
+
+// waitIdle: every thread of pid sleeps in the kernel and the process used no CPU time between two
+// observations 30 ms apart (a state, not a deadline: the timeout only makes the case inconclusive).
+// Used where the input is polled by the runtime rather than read with a blocking read(2).
+func waitIdle(pid int, max time.Duration) bool {
+	deadline := time.Now().Add(max)
+	snap := func() (string, bool) {
+		tasks, _ := filepath.Glob(fmt.Sprintf("/proc/%d/task/*/stat", pid))
+		if len(tasks) == 0 {
+			return "", false
+		}
+		var sb strings.Builder
+		for _, t := range tasks {
+			b, err := os.ReadFile(t)
+			if err != nil {
+				return "", false
+			}
+			s := string(b)
+			i := strings.LastIndexByte(s, ')')
+			f := strings.Fields(s[i+1:])
+			if len(f) < 14 || f[0] != "S" {
+				return "", false
+			}
+			sb.WriteString(t + ":" + f[11] + "," + f[12] + ";") // utime, stime
+		}
+		return sb.String(), true
+	}
+	for time.Now().Before(deadline) {
+		a, ok := snap()
+		if ok {
+			time.Sleep(30 * time.Millisecond)
+			if b, ok2 := snap(); ok2 && a == b {
+				return true
+			}
+			continue
+		}
+		time.Sleep(2 * time.Millisecond)
+	}
+	return false
+}
 
 // waitBlockedInRead: some thread of pid is inside read(2) on fd 0 (a state, not a deadline: the
 // timeout only makes the case inconclusive).
@@ -569,9 +753,9 @@ func c03CliFaults(c *Case) {
 
 func c03Cases(tier string) int {
 	if tier == "thorough" {
-		return 2 + 400 + 6000
+		return 3 + 400 + 6000
 	}
-	return 2 + 40 + 600
+	return 3 + 40 + 600
 }
 
 func c03Run(c *Case) {
@@ -584,7 +768,9 @@ func c03Run(c *Case) {
 		c03Fixed(c)
 	case c.Idx == 1:
 		c03CliFaults(c)
-	case c.Idx < 2+ncli:
+	case c.Idx == 2:
+		c03Big(c)
+	case c.Idx < 3+ncli:
 		c03Cli(c)
 	default:
 		c03InProcess(c)
@@ -594,7 +780,7 @@ func c03Run(c *Case) {
 func init() {
 	register(&Prop{
 		ID: "C03", Level: "fault_enumeration",
-		Rule:          "fault enumeration per generated value stream (1-6 values: arrays, objects, scalars, separators none/space/newline/CRLF/tab): 12 chunk plans on the intact stream (1 byte per read, 2, 7, whole, random partitions with (0,nil) reads, final (n,EOF) or (0,EOF)) which must all agree; EVERY truncation point; a reader error injected at EVERY offset twice, as (0,err) and as (n>0,err); EVERY single-byte deletion plus sampled substitutions and insertions of structural bytes; 29 fixed streams from the property (stray closers, garbage between values, touching values, BOM, form feed). Oracle: a hand-written stream splitter gives the complete values and whether the rest is clean/truncated/damaged; expected output = reference model on those values; outcome must be ok for a clean stream and a JSON error naming the file otherwise; the reader/writer ledger checks at every Read call that every value handed out together with one further byte already has its output written. Binary level: stdin fed chunk by chunk, after each chunk the process is observed blocked in read(0) via /proc and the output due so far must be on the pipe; directory and /proc/self/mem as input; EIO injected with strace on read 1, 2, 3 of a file. Non-trivial = stream with >= 2 values; distinct by (stream, damage kind, position).",
+		Rule:          "fault enumeration per generated value stream (1-6 values: arrays, objects, scalars, separators none/space/newline/CRLF/tab): 12 chunk plans on the intact stream (1 byte per read, 2, 7, whole, random partitions with (0,nil) reads, final (n,EOF) or (0,EOF)) which must all agree; EVERY truncation point; a reader error injected at EVERY offset twice, as (0,err) and as (n>0,err); EVERY single-byte deletion plus sampled substitutions and insertions of structural bytes; 29 fixed streams from the property (stray closers, garbage between values, touching values, BOM, form feed). Oracle: a hand-written stream splitter gives the complete values and whether the rest is clean/truncated/damaged; expected output = reference model on those values; outcome must be ok for a clean stream and a JSON error naming the file otherwise; the reader/writer ledger checks at every Read call that every value handed out together with one further byte already has its output written. Streams with one value of 4 KiB - 1 MiB (string, array, object; first / in the middle / last) among small ones under 5 read plans (all at once, one value per read, 64 KiB / 4 KiB / random blocks). Binary level: the stream fed chunk by chunk on stdin or (every third case) through a named pipe given as a file argument; after each chunk the process is observed waiting for input via /proc (blocked in read(0), or for the named pipe: all threads asleep and no CPU time used between two observations) and the output due so far must be on the pipe; directory and /proc/self/mem as input; EIO injected with strace on read 1, 2, 3 of a file. Non-trivial = stream with >= 2 values; distinct by (stream, damage kind, position).",
 		NumCases:      c03Cases,
 		Run:           c03Run,
 		MinConclusive: func(tier string) int { return 50000 },
